@@ -401,7 +401,12 @@ fn gen_source(
             2 => {
                 // include a static file or a dependency
                 let use_dep = !deps_left.is_empty() && rng.chance(2, 3);
-                if use_dep {
+                if !use_dep && rng.chance(1, 8) {
+                    // `after` a file that does not exist and has no source: nothing to wait for, nothing to create
+                    counter += 1;
+                    b.head(&ws, "", format!("{ws}TXTPP#after nope_{counter}.log"), false, false);
+                    p.sig.push("after-missing-static".into());
+                } else if use_dep {
                     let d = deps_left.remove(0);
                     let out = output_name(&d);
                     let arg = rel_path(sdir, &out, rng);
